@@ -813,6 +813,12 @@ fn step_inner(s: &mut Sess, toks: &[&str]) -> Option<String> {
             })
         }
         ["fnv", bs] => Some(format!("{} | -", digest(&s.parse_bs(bs)?))),
+        ["pause", ms] => {
+            // wall-clock time passes between two operations; the model has no clock: nothing may depend on it
+            let ms: u64 = ms.parse().ok()?;
+            std::thread::sleep(std::time::Duration::from_millis(ms.min(10_000)));
+            Some("ok | -".to_string())
+        }
         ["setreg", reg, bs] => {
             let r: usize = reg.parse().ok()?;
             let b = s.parse_bs(bs)?;
